@@ -58,11 +58,19 @@ RawTracksOK(r, PI) ==
               /\ \A o \in ToSet(r.obs.tk) : o.id = x.id =>
                     /\ (Has(o.get.relative_path, "v") => <<x.path>> = o.get.relative_path.v)
                     /\ (x.id \in DOMAIN PI /\ PI[x.id].base # "=" => x.fn = PI[x.id].base /\ (PI[x.id].has_ext => x.ext = PI[x.id].ext))
+\* lookups by path (observers with an argument): the stored spelling finds the track; a near miss of it (other separator, other
+\* case, padding, the empty string) has no prescribed answer, but it must answer or throw a std::exception - and, like every
+\* observer, it must not write (NoWrite covers the whole observation phase, C16)
+LookupsOK(r) ==
+    Has(r.obs, "lk") =>
+        \A e \in ToSet(r.obs.lk) :
+            /\ (e.out = "throw" => e.std)
+            /\ (e.k = "exact" => e.out = "ok" /\ e.id \in ToSet(e.r))
 ObsOK(r, TS, D, F, PI) ==
     /\ Has(r, "obs")
     /\ DOMAIN TS = {x.id : x \in ToSet(r.obs.tk)}
     /\ ToSet(r.obs.tracks) = DOMAIN TS
-    /\ GettersAgree(r, F) /\ NoWrite(r) /\ StaleOK(r, D) /\ DerivedOK(r, PI) /\ RawTracksOK(r, PI)
+    /\ GettersAgree(r, F) /\ NoWrite(r) /\ StaleOK(r, D) /\ DerivedOK(r, PI) /\ RawTracksOK(r, PI) /\ LookupsOK(r)
 
 Unchanged(r) == Snaps(r) = ts
 V2TwoStatementSetters == {"bpm", "key", "sample_count", "sample_rate"}
